@@ -17,6 +17,19 @@ import GraphiqModel.Proofs.Tableau
 import GraphiqModel.Proofs.TabSpecFactor
 import GraphiqModel.Proofs.HilbertTab
 import GraphiqModel.Proofs.HilbertKron
+import GraphiqModel.Proofs.HilbertDimHistory
+import GraphiqModel.Proofs.HilbertDimKet
+import GraphiqModel.Proofs.HilbertDimReset
+import GraphiqModel.Proofs.HilbertDimMix
+import GraphiqModel.Proofs.HilbertDimProg
+import GraphiqModel.Proofs.HilbertDimAdjoint
+import GraphiqModel.Proofs.HilbertDimCPTP
+import GraphiqModel.Proofs.HilbertDimExpect
+import GraphiqModel.Proofs.HilbertDimOverlap
+import GraphiqModel.Proofs.HilbertDimReduced
+import GraphiqModel.Proofs.HilbertDimBorn
+import GraphiqModel.Proofs.HilbertDimMeasXY
+import GraphiqModel.Proofs.HilbertDimCY
 namespace Graphiq.C07
 open Graphiq Graphiq.PRow Graphiq.Tab
 
@@ -934,5 +947,872 @@ example (o : Bool) : Matrix.trace (proj 3 (Zq 0 o) * rho 3 (STab.ofTab ghz3) * p
 /-- after that measurement (outcome 1), measuring qubit 1 is deterministic -/
 example : ((ghz3.zMeasure 0 true).1.norm).pivot 1 = none ∧ ghz3.pivot 0 = some 3 := by decide
 example : Matrix.trace (rho 3 (STab.ofTab ghz3)) = 1 := (stabilizer_state_is_pure ghz3 ghz3_valid).1
+
+end Graphiq.C07
+
+/-! ## 7. Hilbert-space reading of the dimension-changing operations, for every n
+
+  §4b gives `insert_qubit`, `remove_qubit`, `partial_trace` and `tensor` at the level of the stabilizer group.  This section
+  says what they are on density matrices (`Proofs/HilbertDim{Site,State,Ops,Tensor,Ptrace,History}.lean`):
+
+  * `insSite q A u` is the operator `A` on the other qubits times the 2×2 matrix `u` on qubit `q` — Mathlib's Kronecker
+    product re-indexed along `Bits (m+1) ≃ Bits m × Bool` (delete / insert bit `q`); `kronB A B` the Kronecker product along
+    `Bits (m+n) ≃ Bits m × Bits n`; `ptraceSite q` the partial trace over qubit `q`, `ptraceList` its iteration over a removal
+    list; `ketbra s = |s⟩⟨s|`;
+  * insertion = `⊗_p |0⟩⟨0|`; tensor = `⊗`; removal = partial trace over `q` of the post-measurement state (for an
+    unentangled qubit: of the state itself, which is then a product); partial trace of a product factor = partial trace of
+    the density matrix;
+  * `history_tracks_density`: every accepted history refines the density-matrix semantics `dOps` of the API. -/
+
+namespace Graphiq.C07
+open Graphiq Graphiq.PRow Graphiq.Tab Graphiq.Hilbert Graphiq.TabSpec Matrix
+open scoped Kronecker
+
+/-! ### 7.1 tensor factors and partial traces over bit-string indices -/
+
+/-- `insSite` and `kronB` are Mathlib's Kronecker product along the explicit index equivalences; they are multiplicative,
+    and the partial trace over the site removes the factor: `Tr_q (A ⊗_q u) = tr(u) · A`, `tr(Tr_q M) = tr M` -/
+theorem site_tensor_is_kronecker_product (m n q : Nat) (hq : q ≤ m) (A A' : Matrix (Bits m) (Bits m) ℂ)
+    (u u' : Matrix Bool Bool ℂ) (B B' : Matrix (Bits n) (Bits n) ℂ) (M : Matrix (Bits (m + 1)) (Bits (m + 1)) ℂ) :
+    insSite q A u = (A ⊗ₖ u).submatrix (siteEquiv q hq) (siteEquiv q hq) ∧
+    kronB A B = (A ⊗ₖ B).submatrix (blockEquiv m n) (blockEquiv m n) ∧
+    insSite q A u * insSite q A' u' = insSite q (A * A') (u * u') ∧
+    kronB A B * kronB A' B' = kronB (A * A') (B * B') ∧
+    ptraceSite q (insSite q A u) = Matrix.trace u • A ∧
+    Matrix.trace (ptraceSite q M) = Matrix.trace M ∧
+    (∀ a b, ptraceSite q M a b = M (insB q a false) (insB q b false) + M (insB q a true) (insB q b true)) :=
+  ⟨rfl, rfl, insSite_mul q hq A A' u u', kronB_mul A A' B B', ptraceSite_insSite q hq A u, trace_ptraceSite q hq M,
+   ptraceSite_apply q M⟩
+
+/-- **the matrix of a Pauli row factorises at every site and across every cut** (generalising
+    `pauli_matrix_is_kronecker_product` from the last site): `pauliMat (m+1) P = pauliMat m (P without site q) ⊗_q σ(x_q,z_q)`;
+    a row with an identity inserted at `q` is `P ⊗_q 1`; `pauliMat (m+n) P = pauliMat m P ⊗ pauliMat n (P on the last n
+    sites)`; the rows `tensor` builds are `P ⊗ 1` and `1 ⊗ Q` -/
+theorem pauli_matrix_factorises_at_any_site (m n q : Nat) (hq : q ≤ m) (P : PRow) :
+    pauliMat (m + 1) P = insSite q (pauliMat m (P.deleteCol q)) (sigma (P.x q) (P.z q)) ∧
+    pauliMat (m + 1) (P.insertCol q) = insSite q (pauliMat m P) 1 ∧
+    pauliMat (m + n) P = kronB (pauliMat m P) (pauliMat n (tailRow m P)) ∧
+    pauliMat (m + n) (P.truncCols m) = kronB (pauliMat m P) 1 ∧
+    pauliMat (m + n) (P.shiftCols m) = kronB 1 (pauliMat n P) :=
+  ⟨pauliMat_site m q hq P, pauliMat_insertCol m q hq P, pauliMat_block m n P, pauliMat_truncCols m n P,
+   pauliMat_shiftCols m n P⟩
+
+/-- `ketbra s` is `|s⟩⟨s|`; it is the state `(1 + (-1)^s Z)/2` of the single-site stabilizer `±Z_q` -/
+theorem ketbra_is_basis_projector (q : Nat) (s a b : Bool) :
+    ketbra s a b = (if a = s ∧ b = s then 1 else 0) ∧ site1 (Zq q s) q = ketbra s := ⟨rfl, site1_Zq q s⟩
+
+/-! ### 7.2 insertion and tensor product -/
+
+/-- **`insert_qubit` adds a tensor factor `|0⟩⟨0|` at the requested position**: `ρ(insert_qubit(t, p)) = ρ(t) ⊗_p |0⟩⟨0|`
+    for every valid tableau (real stabilizer rows), every `n`, every `p ≤ n`; `add_qubit` is the case `p = n` -/
+theorem insert_qubit_is_tensor_with_ket0 (t : Tab) (p : Nat) (hp : p ≤ t.n) (hv : t.Valid) (hr : t.StabReal) :
+    rho (t.n + 1) (STab.ofTab (t.insertQubit p)) = insSite p (rho t.n (STab.ofTab t)) (ketbra false) ∧
+    (∀ a b : Bits (t.n + 1), rho (t.n + 1) (STab.ofTab (t.insertQubit p)) a b
+      = rho t.n (STab.ofTab t) (delB p a) (delB p b) * (if bx a p = false ∧ bx b p = false then 1 else 0)) := by
+  have h := rho_insertQubit t p hp hv hr
+  exact ⟨h, fun a b => by rw [h]; rfl⟩
+
+theorem add_qubit_is_tensor_with_ket0 (t : Tab) (hv : t.Valid) (hr : t.StabReal) :
+    rho (t.n + 1) (STab.ofTab t.addQubit) = insSite t.n (rho t.n (STab.ofTab t)) (ketbra false) :=
+  rho_insertQubit t t.n (Nat.le_refl _) hv hr
+
+/-- **`tensor([a, b])` is the tensor product of the states**: `ρ(tensor([a,b])) = ρ(a) ⊗ ρ(b)` with the qubits of `a`
+    first, for all tableaux of all sizes (no hypothesis) -/
+theorem tensor_is_kronecker_product (a b : Tab) :
+    rho (a.n + b.n) (STab.ofTab (Tab.tensor2 a b)) = kronB (rho a.n (STab.ofTab a)) (rho b.n (STab.ofTab b)) ∧
+    (∀ x y : Bits (a.n + b.n), rho (a.n + b.n) (STab.ofTab (Tab.tensor2 a b)) x y
+      = rho a.n (STab.ofTab a) (leftB x) (leftB y) * rho b.n (STab.ofTab b) (rightB x) (rightB y)) := by
+  have h := rho_tensor a b
+  exact ⟨h, fun x y => by rw [h]; rfl⟩
+
+/-- `tensor(list_of_tables)` for a whole list (the Python folds the two-factor step from the left): the state is the
+    iterated Kronecker product, in list order -/
+theorem tensor_list_is_iterated_kronecker_product (t : Tab) (ts : List Tab) :
+    dstate (tensorL t ts) = (ts.map dstate).foldl dTensor (dstate t) ∧
+    (∀ s1 s2 : DState, dTensor s1 s2 = ⟨s1.n + s2.n, kronB s1.ρ s2.ρ⟩) := ⟨dstate_tensorL t ts, fun _ _ => rfl⟩
+
+/-- at the last site, `insSite` is the entrywise product of `pauli_matrix_is_kronecker_product` (§6): the two Kronecker
+    conventions agree -/
+theorem site_tensor_at_last_site {m : Nat} (A : Matrix (Bits m) (Bits m) ℂ) (u : Matrix Bool Bool ℂ) (a b : Bits (m + 1)) :
+    insSite m A u a b = A (initB a) (initB b) * u (lastB a) (lastB b) := insSite_last A u a b
+
+example : rho 3 (STab.ofTab (bell.insertQubit 1)) = insSite 1 (rho 2 (STab.ofTab bell)) (ketbra false) :=
+  (insert_qubit_is_tensor_with_ket0 bell 1 (by decide) bell_valid bell_real).1
+example : rho 3 (STab.ofTab (Tab.tensor2 (Tab.ket1 1) bell))
+    = kronB (rho 1 (STab.ofTab (Tab.ket1 1))) (rho 2 (STab.ofTab bell)) := (tensor_is_kronecker_product (Tab.ket1 1) bell).1
+
+/-! ### 7.3 removing a qubit -/
+
+/-- **`remove_qubit` = partial trace of the post-measurement state.**  Valid tableau on `m+1` qubits, `q < m+1`, any
+    forced / drawn outcome `o`.  Inside `remove_qubit` the code Z-measures qubit `q`; the measured tableau is the product
+    `ρ(result) ⊗_q |s⟩⟨s|` (`s` the measurement outcome) and the returned tableau is its partial trace over `q`. -/
+theorem remove_qubit_is_partial_trace_of_measured_state (m : Nat) (t t' : Tab) (q : Nat) (o : Bool) (hm : t.n = m + 1)
+    (hq : q < t.n) (hv : t.Valid) (hr : t.StabReal) (h : t.removeQubit q o = .ok t') :
+    t'.n = m ∧
+    rho (m + 1) (STab.ofTab (t.zMeasure q o).1) = insSite q (rho m (STab.ofTab t')) (ketbra (t.zMeasure q o).2.1) ∧
+    rho m (STab.ofTab t') = ptraceSite q (rho (m + 1) (STab.ofTab (t.zMeasure q o).1)) :=
+  ⟨(rho_removeQubit_measured m t t' q o hm hq hv hr h).1, (rho_removeQubit_measured m t t' q o hm hq hv hr h).2,
+   rho_removeQubit m t t' q o hm hq hv hr h⟩
+
+/-- random branch (qubit `q` entangled with the rest or in an X/Y eigenstate): the result is the reduced state of the
+    post-measurement state of `ρ(t)` itself, `ρ(result) = Tr_q(Π_o ρ Π_o) / ½` with `Π_o = (1 + (-1)^o Z_q)/2` -/
+theorem remove_qubit_random_is_reduced_post_measurement_state (m : Nat) (t t' : Tab) (q p : Nat) (o : Bool)
+    (hm : t.n = m + 1) (hq : q < t.n) (hv : t.Valid) (hr : t.StabReal) (hp : t.pivot q = some p)
+    (h : t.removeQubit q o = .ok t') :
+    rho m (STab.ofTab t')
+      = (2 : ℂ) • ptraceSite q (proj (m + 1) (Zq q o) * rho (m + 1) (STab.ofTab t) * proj (m + 1) (Zq q o)) :=
+  rho_removeQubit_random m t t' q p o hm hq hv hr hp h
+
+/-- deterministic branch (`±Z_q` stabilizes the state): the state is the product `ρ(result) ⊗_q |s⟩⟨s|` and the result is
+    the reduced state `Tr_q ρ(t)` -/
+theorem remove_qubit_deterministic_is_partial_trace (m : Nat) (t t' : Tab) (q : Nat) (o : Bool) (hm : t.n = m + 1)
+    (hq : q < t.n) (hv : t.Valid) (hr : t.StabReal) (hp : t.pivot q = none) (h : t.removeQubit q o = .ok t') :
+    rho (m + 1) (STab.ofTab t) = insSite q (rho m (STab.ofTab t')) (ketbra (t.measScratch q).r) ∧
+    rho m (STab.ofTab t') = ptraceSite q (rho (m + 1) (STab.ofTab t)) :=
+  rho_removeQubit_det m t t' q o hm hq hv hr hp h
+
+/-- **removing an unentangled qubit leaves the state of the others unchanged**: if a single-site Pauli `σ` on qubit `q`
+    is in the stabilizer group, then `ρ(t) = ρ(result) ⊗_q (1 + σ_q)/2` and `ρ(result) = Tr_q ρ(t)`, whatever outcome is
+    drawn (also when the measurement inside `remove_qubit` is random, e.g. for `|+⟩`) -/
+theorem remove_unentangled_qubit_is_partial_trace (m : Nat) (t t' : Tab) (q : Nat) (o : Bool) (hm : t.n = m + 1)
+    (hq : q < t.n) (hv : t.Valid) (hr : t.StabReal) (σ : PRow) (hσg : Grp t σ) (hσ : SingleSite t.n q σ)
+    (h : t.removeQubit q o = .ok t') :
+    rho (m + 1) (STab.ofTab t) = insSite q (rho m (STab.ofTab t')) (site1 σ q) ∧
+    rho m (STab.ofTab t') = ptraceSite q (rho (m + 1) (STab.ofTab t)) :=
+  rho_removeQubit_unentangled m t t' q o hm hq hv hr σ hσg hσ h
+
+/-- tracing out a qubit forgets its Z-measurement: `Tr_q ρ(t)` is the equal mixture of the two possible results of
+    `remove_qubit` (the same tableau twice when the measurement is deterministic) -/
+theorem partial_trace_is_mixture_of_removals (m : Nat) (t t0 t1 : Tab) (q : Nat) (hm : t.n = m + 1) (hq : q < t.n)
+    (hv : t.Valid) (hr : t.StabReal) (h0 : t.removeQubit q false = .ok t0) (h1 : t.removeQubit q true = .ok t1) :
+    ptraceSite q (rho (m + 1) (STab.ofTab t)) = (1 / 2 : ℂ) • rho m (STab.ofTab t0) + (1 / 2 : ℂ) • rho m (STab.ofTab t1) :=
+  ptrace_remove_mix m t t0 t1 q hm hq hv hr h0 h1
+
+/-- Bell pair, remove qubit 1 (random measurement, pivot row 2): the hypotheses are met for both outcomes -/
+example (o : Bool) : ∃ t', bell.removeQubit 1 o = .ok t' ∧
+    rho 1 (STab.ofTab t') = (2 : ℂ) • ptraceSite 1 (proj 2 (Zq 1 o) * rho 2 (STab.ofTab bell) * proj 2 (Zq 1 o)) := by
+  obtain ⟨t', h⟩ := remove_qubit_total bell 1 o (by decide) bell_valid
+  exact ⟨t', h, remove_qubit_random_is_reduced_post_measurement_state 1 bell t' 1 2 o rfl (by decide) bell_valid bell_real
+    (by decide) h⟩
+/-- `|11⟩`, remove qubit 0 (deterministic, `−Z₀` in the group) -/
+example (o : Bool) : ∃ t', (Tab.ket1 2).removeQubit 0 o = .ok t' ∧
+    rho 1 (STab.ofTab t') = ptraceSite 0 (rho 2 (STab.ofTab (Tab.ket1 2))) := by
+  have hv : (Tab.ket1 2).Valid := (isSymplectic_iff_valid _).mp (by decide)
+  obtain ⟨t', h⟩ := remove_qubit_total (Tab.ket1 2) 0 o (by decide) hv
+  exact ⟨t', h, (remove_qubit_deterministic_is_partial_trace 1 (Tab.ket1 2) t' 0 o rfl (by decide) hv
+    (stabRealB_spec _ (by decide)) (by decide) h).2⟩
+
+/-! ### 7.4 partial trace -/
+
+/-- **`partial_trace` of unentangled qubits is the partial trace of the density matrix** (iterated over the removal list,
+    highest index first), for every outcome script -/
+theorem partial_trace_product_is_partial_trace (m : Nat) (t t' : Tab) (keep : List Nat) (os : List Bool)
+    (hm : t.n = m + (removalList t.n keep).length) (hv : t.Valid) (hr : t.StabReal)
+    (hu : ∀ q, q < t.n → q ∉ keep → Unentangled t q) (h : t.partialTrace keep os = .ok t') :
+    rho m (STab.ofTab t') = ptraceList (removalList t.n keep) (rho (m + (removalList t.n keep).length) (STab.ofTab t)) :=
+  rho_partialTrace_product m t t' keep os hm hv hr hu h
+
+/-- **`partial_trace` of a product factor is the partial trace of the density matrix**: if the state factorises across
+    the cut kept | traced-out (`Factor`; the traced-out qubits may be entangled among themselves and their measurements
+    random), then `ρ(partial_trace(t, keep)) = Tr_{removed} ρ(t)` for every outcome script -/
+theorem partial_trace_factor_is_partial_trace (m : Nat) (t t' : Tab) (keep : List Nat) (os : List Bool)
+    (hm : t.n = m + (removalList t.n keep).length) (hv : t.Valid) (hr : t.StabReal)
+    (hf : Factor t (removalList t.n keep)) (h : t.partialTrace keep os = .ok t') :
+    rho m (STab.ofTab t') = ptraceList (removalList t.n keep) (rho (m + (removalList t.n keep).length) (STab.ofTab t)) :=
+  rho_partialTrace_factor m t t' keep os hm hv hr hf h
+
+/-- **`partial_trace(tensor([a, b]))` onto the qubits of `a` (resp. `b`) is the state of `a` (resp. `b`)**, as density
+    matrices, and it is the partial trace of `ρ(tensor([a,b])) = ρ(a) ⊗ ρ(b)` over the other factor -/
+theorem partial_trace_of_tensor_is_factor (a b t' : Tab) (os : List Bool) (ha : a.Valid) (hb : b.Valid)
+    (ra : a.StabReal) (rb : b.StabReal) :
+    ((Tab.tensor2 a b).partialTrace (List.range a.n) os = .ok t' →
+      rho a.n (STab.ofTab t') = rho a.n (STab.ofTab a) ∧
+      rho a.n (STab.ofTab t') = ptraceList (removalList (a.n + b.n) (List.range a.n))
+        (rho (a.n + (removalList (a.n + b.n) (List.range a.n)).length) (STab.ofTab (Tab.tensor2 a b)))) ∧
+    ((Tab.tensor2 a b).partialTrace (rightSites a.n b.n) os = .ok t' →
+      rho b.n (STab.ofTab t') = rho b.n (STab.ofTab b) ∧
+      rho b.n (STab.ofTab t') = ptraceList (removalList (a.n + b.n) (rightSites a.n b.n))
+        (rho (b.n + (removalList (a.n + b.n) (rightSites a.n b.n)).length) (STab.ofTab (Tab.tensor2 a b)))) :=
+  ⟨rho_partialTrace_tensor_left a b t' os ha hb ra rb, rho_partialTrace_tensor_right a b t' os ha hb ra rb⟩
+
+/-- **`ptraceSite` / `ptraceList` are the partial trace**: they satisfy its defining property — adjoint, for the trace
+    pairing, of the embedding `A ↦ A ⊗ 1` of the operators on the kept qubits — and are determined by it; the embedding of
+    the matrix of a Pauli row is the matrix of the row with identity columns inserted (`embedCols`, the map in
+    `partial_trace_factor_spec`) -/
+theorem partial_trace_defining_property {m : Nat} (rem : List Nat) (hlt : ∀ q, q ∈ rem → q < m + rem.length)
+    (hpw : rem.Pairwise (· > ·)) (M : Matrix (Bits (m + rem.length)) (Bits (m + rem.length)) ℂ) :
+    (∀ A : Matrix (Bits m) (Bits m) ℂ, Matrix.trace (ptraceList rem M * A) = Matrix.trace (M * embedOp rem A)) ∧
+    (∀ N : Matrix (Bits m) (Bits m) ℂ, (∀ A, Matrix.trace (N * A) = Matrix.trace (M * embedOp rem A)) →
+      N = ptraceList rem M) ∧
+    (∀ P : PRow, pauliMat (m + rem.length) (embedCols rem P) = embedOp rem (pauliMat m P)) :=
+  ⟨ptraceList_adjoint rem hlt hpw M, ptraceList_unique rem hlt hpw M, pauliMat_embedCols rem hlt hpw⟩
+
+/-- the same for one site: `tr(Tr_q(M) · A) = tr(M · (A ⊗_q 1))`, which determines `Tr_q M` -/
+theorem partial_trace_site_defining_property {m : Nat} (q : Nat) (hq : q ≤ m)
+    (M : Matrix (Bits (m + 1)) (Bits (m + 1)) ℂ) :
+    (∀ A : Matrix (Bits m) (Bits m) ℂ, Matrix.trace (ptraceSite q M * A) = Matrix.trace (M * insSite q A 1)) ∧
+    (∀ N : Matrix (Bits m) (Bits m) ℂ, (∀ A, Matrix.trace (N * A) = Matrix.trace (M * insSite q A 1)) →
+      N = ptraceSite q M) :=
+  ⟨ptraceSite_adjoint q hq M, ptraceSite_unique q hq M⟩
+
+/-- **the site-wise partial trace and the Kronecker product fit together**: `Tr_B (A ⊗ B) = tr(B) · A` for the iterated
+    partial trace over the last block (any `A`, `B`), in particular `Tr_B (ρ(a) ⊗ ρ(b)) = ρ(a)` with the removal list that
+    `partial_trace(tensor([a, b]), keep = qubits of a)` uses -/
+theorem partial_trace_of_kronecker_product {m : Nat} (rem : List Nat) (h : lastBlock m rem)
+    (A : Matrix (Bits m) (Bits m) ℂ) (B : Matrix (Bits rem.length) (Bits rem.length) ℂ) (a b : Tab) (hb : b.Valid) :
+    ptraceList rem (kronB A B) = Matrix.trace B • A ∧
+    lastBlock a.n (removalList (a.n + b.n) (List.range a.n)) ∧
+    ptraceList (removalList (a.n + b.n) (List.range a.n))
+      (rho (a.n + (removalList (a.n + b.n) (List.range a.n)).length) (STab.ofTab (Tab.tensor2 a b)))
+      = rho a.n (STab.ofTab a) :=
+  ⟨ptraceList_kronB rem h A B, lastBlock_removalList a.n b.n, ptrace_tensor_state a b hb⟩
+
+/-- **what `partial_trace` returns when the traced-out qubits are entangled with the kept ones**: always a pure
+    stabilizer state (the reduced state of the post-measurement state); the true, mixed reduced state `Tr_rem ρ(t)` is the
+    uniform mixture of these answers over the outcome choices (`mixGo`), for every valid tableau and every removal list -/
+theorem reduced_state_is_mixture_of_partial_trace_results (rem : List Nat) (m : Nat) (t : Tab)
+    (hn : t.n = m + rem.length) (hv : t.Valid) (hr : t.StabReal) (hpw : rem.Pairwise (· > ·))
+    (hlt : ∀ q, q ∈ rem → q < t.n) :
+    ptraceList rem (rho (m + rem.length) (STab.ofTab t)) = mixGo m rem t :=
+  ptraceList_eq_mixture rem m t hn hv hr hpw hlt
+
+example : ptraceList [1] (rho (1 + [1].length) (STab.ofTab bell)) = mixGo 1 [1] bell :=
+  reduced_state_is_mixture_of_partial_trace_results [1] 1 bell rfl bell_valid bell_real
+    (List.pairwise_singleton _ _) (by intro q hq; simp only [List.mem_singleton] at hq; subst hq; decide)
+
+/-- **the Bell pair, concretely**: `remove_qubit(bell, 1)` returns the pure state `|o⟩⟨o|` (`o` the drawn outcome), whereas
+    the reduced state of qubit 0 is the maximally mixed state `½·1` — their equal mixture -/
+theorem bell_reduced_state_is_maximally_mixed :
+    ptraceSite 1 (rho 2 (STab.ofTab bell)) = (1 / 2 : ℂ) • (1 : Matrix (Bits 1) (Bits 1) ℂ) ∧
+    ∀ o : Bool, ∃ t', bell.removeQubit 1 o = .ok t' ∧ rho 1 (STab.ofTab t') = proj 1 (Zq 0 o) := by
+  have key : ∀ o : Bool, ∃ t', bell.removeQubit 1 o = .ok t' ∧ rho 1 (STab.ofTab t') = proj 1 (Zq 0 o) := by
+    intro o
+    obtain ⟨t', h⟩ := remove_qubit_total bell 1 o (by decide) bell_valid
+    obtain ⟨n', v', r', _⟩ := removeQubit_grp bell t' 1 o (by decide) bell_valid bell_real h
+    have hz : Grp t' (Zq 0 o) := by
+      refine (remove_entangled_qubit_spec bell t' 1 2 o (by decide) bell_valid bell_real (by decide) h _).mpr (Or.inr ?_)
+      cases o
+      · exact InSpan.eqv _ _ (grp_gen bell 1 (by decide)) (eqOn_check 2 _ _ (by decide))
+      · exact InSpan.eqv _ _ (grp_gen bell 1 (by decide)) (eqOn_check 2 _ _ (by decide))
+    exact ⟨t', h, rho_one_qubit_Z t' n' v' r' o hz⟩
+  refine ⟨?_, key⟩
+  obtain ⟨t0, h0, e0⟩ := key false
+  obtain ⟨t1, h1, e1⟩ := key true
+  have mix := ptrace_remove_mix 1 bell t0 t1 1 rfl (by decide) bell_valid bell_real h0 h1
+  rw [mix, e0, e1, ← smul_add, proj_Zq_add]
+
+/-- `partial_trace` never hits an assertion on a valid tableau -/
+theorem partial_trace_total (t : Tab) (keep : List Nat) (os : List Bool) (hv : t.Valid) (hr : t.StabReal) :
+    ∃ t', t.partialTrace keep os = .ok t' :=
+  partialTrace_go_total (removalList t.n keep) t os hv hr (removalList_desc t.n keep)
+    (fun q hq => ((mem_removalList t.n keep q).mp hq).1)
+
+/-- `|1⟩ ⊗ Bell`, trace the (internally entangled, randomly measured) Bell pair out: the result is `|1⟩⟨1|` -/
+example (os : List Bool) : ∃ t', (Tab.tensor2 (Tab.ket1 1) bell).partialTrace (List.range 1) os = .ok t' ∧
+    rho 1 (STab.ofTab t') = rho 1 (STab.ofTab (Tab.ket1 1)) := by
+  have hv1 : (Tab.ket1 1).Valid := (isSymplectic_iff_valid _).mp (by decide)
+  have hr1 : (Tab.ket1 1).StabReal := stabRealB_spec _ (by decide)
+  obtain ⟨t', h⟩ := partial_trace_total (Tab.tensor2 (Tab.ket1 1) bell) (List.range 1) os
+    (tensor_valid _ _ hv1 bell_valid) (tensor_stab_real _ _ hr1 bell_real)
+  exact ⟨t', h, ((partial_trace_of_tensor_is_factor (Tab.ket1 1) bell t' os hv1 bell_valid hr1 bell_real).1 h).1⟩
+
+/-! ### 7.5 every history tracks the density matrix -/
+
+/-- **Z-measurement as a quantum operation**: the reported outcome is the one that occurs (the forced / drawn `o` unless
+    it has probability `tr(Π_o ρ) = 0`), the new tableau is the normalised post-measurement state `Π ρ Π / tr(Π ρ)`, and the
+    measurement is random (pivot found) exactly when both outcomes have non-zero probability -/
+theorem measurement_is_quantum_measurement (t : Tab) (q : Nat) (o : Bool) (hq : q < t.n) (hv : t.Valid) (hr : t.StabReal) :
+    measOutcome t.n q o (rho t.n (STab.ofTab t)) = (t.zMeasure q o).2.1 ∧
+    postMeas t.n q o (rho t.n (STab.ofTab t)) = rho t.n (STab.ofTab (t.zMeasure q o).1) ∧
+    (dRandom q (dstate t) ↔ (t.pivot q).isSome = true) := meas_density t q o hq hv hr
+
+/-- **one API call refines the density-matrix semantics** `dOp` (gates, swap: `U ρ U†`; measurement and resets: projective
+    measurement with the scripted outcome, then `X_q` iff the outcome is not the intended state, then `H` / `P·H` for
+    `reset_x` / `reset_y`; insertion: `⊗_p |0⟩⟨0|`; removal: measurement then partial trace; partial trace: removals, highest
+    index first) -/
+theorem op_tracks_density_matrix (t t' : Tab) (op : Tab.Op) (out : Option (Bool × Bool)) (hop : WF op) (hv : t.Valid)
+    (hr : t.StabReal) (h : t.applyOp op = .ok (t', out)) : dstate t' = dOp op (dstate t) :=
+  op_tracks_density t t' op out ((wf_iff op).mp hop) hv hr h
+
+/-- **History theorem, Hilbert-space form.**  From a valid tableau with real stabilizer rows, along any finite history of
+    API calls that the API accepts (gates, swap, measurements and resets with any outcome script, insertions, removals,
+    partial traces), the density matrix of the final tableau — number of qubits included — is the density-matrix
+    semantics `dOps` of the history applied to the initial density matrix. -/
+theorem history_tracks_density (ops : List Tab.Op) (hops : ∀ op ∈ ops, WF op) :
+    ∀ (t t' : Tab), t.Valid → t.StabReal → t.runOps ops = .ok t' → dstate t' = dOps ops (dstate t) := by
+  induction ops with
+  | nil => intro t t' _ _ h; simp [runOps] at h; rw [← h]; rfl
+  | cons op rest ih =>
+    intro t t' hv hr h
+    simp only [runOps] at h
+    split at h
+    · next t1 out h1 =>
+      have hop := hops op List.mem_cons_self
+      have v1 := op_preserves_valid t t1 op out hop hv h1
+      have r1 := (op_tracks_state t t1 op out hop hv hr h1).1
+      have d1 := op_tracks_density_matrix t t1 op out hop hv hr h1
+      rw [ih (fun o ho => hops o (List.mem_cons_of_mem _ ho)) t1 t' v1 r1 h, d1]
+      rfl
+    · simp at h
+
+/-- the history of §4b.9 on the Bell pair is accepted, so the theorem applies to it (8 operations of every kind) -/
+example : ∃ t', bell.runOps [.h 0, .cnot 0 1, .meas 1 true, .insert 2, .resetY 0 true false, .swap 1 2, .remove 0 true,
+      .ptrace [0] [false]] = .ok t' ∧
+    dstate t' = dOps [.h 0, .cnot 0 1, .meas 1 true, .insert 2, .resetY 0 true false, .swap 1 2, .remove 0 true,
+      .ptrace [0] [false]] (dstate bell) := by
+  have hwf : ∀ op ∈ ([.h 0, .cnot 0 1, .meas 1 true, .insert 2, .resetY 0 true false, .swap 1 2, .remove 0 true,
+      .ptrace [0] [false]] : List Tab.Op), WF op := by
+    intro op hop
+    simp only [List.mem_cons, List.mem_nil_iff, or_false] at hop
+    rcases hop with rfl | rfl | rfl | rfl | rfl | rfl | rfl | rfl <;> first | trivial | (show (0 : Nat) ≠ 1; decide)
+  cases hrun : bell.runOps [.h 0, .cnot 0 1, .meas 1 true, .insert 2, .resetY 0 true false, .swap 1 2, .remove 0 true,
+      .ptrace [0] [false]] with
+  | error e =>
+    exfalso
+    have : (match bell.runOps [.h 0, .cnot 0 1, .meas 1 true, .insert 2, .resetY 0 true false, .swap 1 2, .remove 0 true,
+      .ptrace [0] [false]] with | .ok _ => true | .error _ => false) = true := by decide +kernel
+    rw [hrun] at this; cases this
+  | ok t' => exact ⟨t', rfl, history_tracks_density _ hwf bell t' bell_valid bell_real hrun⟩
+
+/-! ### 7.6 resets replace the qubit; the stabilizer state as a vector -/
+
+/-- **`reset_z` / `reset_x` / `reset_y` on density matrices** (the Hilbert-space form of `reset_spec`): the code
+    Z-measures qubit `q` (forced / drawn outcome `o`) and leaves the other qubits in the reduced state of the
+    post-measurement state, `A = Tr_q(Π ρ Π / tr(Π ρ))`; qubit `q` becomes the tensor factor `|i⟩⟨i|` (`reset_z`),
+    `(1 + (-1)^i X)/2` (`reset_x`), `(1 + (-1)^i Y)/2` (`reset_y`), `i` the intended state -/
+theorem reset_is_measure_and_replace (m : Nat) (t : Tab) (q : Nat) (i o : Bool) (hm : t.n = m + 1) (hq : q < t.n)
+    (hv : t.Valid) (hr : t.StabReal) :
+    rho (m + 1) (STab.ofTab (t.resetZ q i o))
+      = insSite q (ptraceSite q (postMeas (m + 1) q o (rho (m + 1) (STab.ofTab t)))) (ketbra i) ∧
+    rho (m + 1) (STab.ofTab (t.resetX q i o))
+      = insSite q (ptraceSite q (postMeas (m + 1) q o (rho (m + 1) (STab.ofTab t)))) (bloch true false i) ∧
+    rho (m + 1) (STab.ofTab (t.resetY q i o))
+      = insSite q (ptraceSite q (postMeas (m + 1) q o (rho (m + 1) (STab.ofTab t)))) (bloch true true i) ∧
+    bloch true false i = (1 / 2 : ℂ) • (1 + (if i then (-1 : ℂ) else 1) • sigmaX) ∧
+    bloch true true i = (1 / 2 : ℂ) • (1 + (if i then (-1 : ℂ) else 1) • sigmaY) :=
+  ⟨rho_resetZ m t q i o hm hq hv hr, rho_resetX m t q i o hm hq hv hr, rho_resetY m t q i o hm hq hv hr,
+   by unfold bloch; rw [sigma_tf], by unfold bloch; rw [sigma_tt]⟩
+
+/-- one-qubit gate matrices are `1 ⊗_q u` (`get_one_qubit_gate`), for any site -/
+theorem one_qubit_gate_is_site_tensor (m q : Nat) (hq : q ≤ m) (u : Matrix Bool Bool ℂ) :
+    oneQ (m + 1) q u = insSite q 1 u := oneQ_eq_insSite m q hq u
+
+example (i o : Bool) : rho 2 (STab.ofTab (bell.resetZ 1 i o))
+    = insSite 1 (ptraceSite 1 (postMeas 2 1 o (rho 2 (STab.ofTab bell)))) (ketbra i) :=
+  (reset_is_measure_and_replace 1 bell 1 i o rfl (by decide) bell_valid bell_real).1
+
+/-- **a pure state is a ket** (linear algebra): a Hermitian idempotent of trace one is `|ψ⟩⟨ψ|` for a unit vector `ψ` -/
+theorem pure_state_is_ket {ι : Type} [Fintype ι] [DecidableEq ι] (P : Matrix ι ι ℂ) (hP : P * P = P) (hH : Pᴴ = P)
+    (htr : Matrix.trace P = 1) : ∃ ψ : ι → ℂ, P = Matrix.vecMulVec ψ (star ψ) ∧ star ψ ⬝ᵥ ψ = 1 :=
+  rank_one_of_pure P hP hH htr
+
+/-- **The literal rank-one form of a stabilizer state.**  (Compare `C11.stabilizer_state_is_rank_one`: there `ψ = V|0…0⟩` is
+    constructed from the synthesised inverse circuit, for any independent real commuting generating set; here `ψ` comes from
+    purity alone (`pure_state_is_ket`) and the theorem adds that `ψ` is the joint `+1` eigenvector of the whole group and is
+    unique up to a scalar.)  For every valid Clifford tableau (real stabilizer rows), every
+    `n`: there is a unit vector `ψ ∈ ℂ^(2^n)` with `ρ = |ψ⟩⟨ψ|` (entrywise `ρ a b = ψ a · conj(ψ b)`); `ψ` is a `+1`
+    eigenvector of every element of the stabilizer group; and every vector fixed by the `n` generators is a scalar multiple
+    of `ψ` — the tableau determines the state vector up to a phase. -/
+theorem stabilizer_state_is_ket (t : Tab) (hv : t.Valid) (hr : t.StabReal) :
+    ∃ ψ : Bits t.n → ℂ,
+      rho t.n (STab.ofTab t) = Matrix.vecMulVec ψ (star ψ) ∧ star ψ ⬝ᵥ ψ = 1 ∧
+      (∀ g, Grp t g → pauliMat t.n g *ᵥ ψ = ψ) ∧
+      (∀ φ : Bits t.n → ℂ, (∀ i, i < t.n → pauliMat t.n (t.stab i) *ᵥ φ = φ) → φ = (star ψ ⬝ᵥ φ) • ψ) :=
+  stabilizer_ket_exists t hv hr
+
+example : ∃ ψ : Bits 3 → ℂ, rho 3 (STab.ofTab ghz3) = Matrix.vecMulVec ψ (star ψ) ∧ star ψ ⬝ᵥ ψ = 1 := by
+  obtain ⟨ψ, h1, h2, _⟩ := stabilizer_state_is_ket ghz3 ghz3_valid ghz3_stabReal
+  exact ⟨ψ, h1, h2⟩
+
+/-! ### 7.7 programs: histories combined with `tensor`, from `CliffordTableau(n)` -/
+
+/-- **Program theorem (no hypothesis on the state left).**  A program starts from `CliffordTableau(n)` (or from given
+    valid tableaux), runs histories of API calls and combines results with `tensor`.  Whenever the model runs it to a
+    tableau `t`: `t` is valid, its stabilizer rows are real, and its density matrix — number of qubits included — is the
+    denotation `Prog.den`, which is defined in Hilbert space only: `|0…0⟩⟨0…0|` for `CliffordTableau(n)`, the quantum
+    operations `dOps` for a history, the Kronecker product for `tensor`. -/
+theorem program_tracks_density (p : Prog) : ∀ t, p.WF → p.run = .ok t → t.Valid ∧ t.StabReal ∧ dstate t = p.den := by
+  induction p with
+  | leaf t0 =>
+    intro t hw h
+    simp only [Prog.run, Except.ok.injEq] at h
+    subst h
+    exact ⟨hw.1, hw.2, rfl⟩
+  | init n =>
+    intro t _ h
+    simp only [Prog.run, Except.ok.injEq] at h
+    subst h
+    exact ⟨ket0_is_valid n, ket0_stabReal n, dstate_ket0 n⟩
+  | seq p ops ih =>
+    intro t hw h
+    simp only [Prog.run] at h
+    cases hp : p.run with
+    | error e => rw [hp] at h; cases h
+    | ok t0 =>
+      rw [hp] at h
+      obtain ⟨v0, r0, d0⟩ := ih t0 hw.1 hp
+      have hops : ∀ op ∈ ops, WF op := fun op hop => (wf_iff op).mpr (hw.2 op hop)
+      obtain ⟨v, r, _⟩ := history_tracks_state ops hops t0 t v0 r0 h
+      refine ⟨v, r, ?_⟩
+      rw [history_tracks_density ops hops t0 t v0 r0 h, d0]
+      rfl
+  | tensor p q ihp ihq =>
+    intro t hw h
+    simp only [Prog.run] at h
+    cases hp : p.run with
+    | error e => rw [hp] at h; cases h
+    | ok a =>
+      rw [hp] at h
+      cases hq : q.run with
+      | error e => rw [hq] at h; cases h
+      | ok b =>
+        rw [hq] at h
+        simp only [Except.ok.injEq] at h
+        subst h
+        obtain ⟨va, ra, da⟩ := ihp a hw.1 hp
+        obtain ⟨vb, rb, db⟩ := ihq b hw.2 hq
+        refine ⟨tensor_valid a b va vb, tensor_stab_real a b ra rb, ?_⟩
+        rw [dstate_tensor, da, db]
+        rfl
+
+/-- `(Bell pair from |00⟩ by H, CNOT) ⊗ (|0⟩ measured)`, then a swap and a partial trace: accepted, so the theorem applies -/
+example : ∃ t, (Prog.seq (Prog.tensor (Prog.seq (Prog.init 2) [.h 0, .cnot 0 1]) (Prog.seq (Prog.init 1) [.meas 0 true]))
+      [.swap 0 2, .ptrace [0, 1] [true]]).run = .ok t ∧
+    dstate t = (Prog.seq (Prog.tensor (Prog.seq (Prog.init 2) [.h 0, .cnot 0 1]) (Prog.seq (Prog.init 1) [.meas 0 true]))
+      [.swap 0 2, .ptrace [0, 1] [true]]).den := by
+  have hw : (Prog.seq (Prog.tensor (Prog.seq (Prog.init 2) [.h 0, .cnot 0 1]) (Prog.seq (Prog.init 1) [.meas 0 true]))
+      [.swap 0 2, .ptrace [0, 1] [true]]).WF := by
+    refine ⟨⟨⟨trivial, ?_⟩, ⟨trivial, ?_⟩⟩, ?_⟩
+    · intro op hop
+      simp only [List.mem_cons, List.mem_nil_iff, or_false] at hop
+      rcases hop with rfl | rfl
+      · trivial
+      · show (0 : Nat) ≠ 1; decide
+    · intro op hop
+      simp only [List.mem_cons, List.mem_nil_iff, or_false] at hop
+      subst hop; trivial
+    · intro op hop
+      simp only [List.mem_cons, List.mem_nil_iff, or_false] at hop
+      rcases hop with rfl | rfl <;> trivial
+  cases hrun : (Prog.seq (Prog.tensor (Prog.seq (Prog.init 2) [.h 0, .cnot 0 1]) (Prog.seq (Prog.init 1) [.meas 0 true]))
+      [.swap 0 2, .ptrace [0, 1] [true]]).run with
+  | error e =>
+    exfalso
+    have : (match (Prog.seq (Prog.tensor (Prog.seq (Prog.init 2) [.h 0, .cnot 0 1]) (Prog.seq (Prog.init 1) [.meas 0 true]))
+      [.swap 0 2, .ptrace [0, 1] [true]]).run with | .ok _ => true | .error _ => false) = true := by decide +kernel
+    rw [hrun] at this; cases this
+  | ok t => exact ⟨t, rfl, (program_tracks_density _ t hw hrun).2.2⟩
+
+/-! ### 7.8 the density-matrix semantics is a semantics of quantum operations -/
+
+open scoped ComplexOrder in
+/-- **`dOp` maps density matrices to density matrices** — on *every* positive semidefinite matrix of trace one, not only on
+    stabilizer states, every in-range API call (`OpInB`: the Python's `assert`s, control ≠ target) returns a positive
+    semidefinite matrix of trace one; so do histories and `tensor`.  (A check of the projectors and normalisations in the
+    definitions of `dOp`, independent of the tableau model.) -/
+theorem api_semantics_is_quantum_operation (op : Tab.Op) (ops : List Tab.Op) (s s' : DState) (hs : IsDensity s)
+    (hs' : IsDensity s') :
+    (OpInB s.n op → IsDensity (dOp op s)) ∧ (OpsInB ops s → IsDensity (dOps ops s)) ∧ IsDensity (dTensor s s') ∧
+    (IsDensity s ↔ s.ρ.PosSemidef ∧ Matrix.trace s.ρ = 1) :=
+  ⟨dOp_isDensity op s hs, dOps_isDensity ops s hs, dTensor_isDensity s s' hs hs', Iff.rfl⟩
+
+/-- the state of every valid tableau is a density matrix, so the theorem applies along every history -/
+example : IsDensity (dstate ghz3) :=
+  ⟨(stabilizer_state_is_pure ghz3 ghz3_valid).2.2.2, (stabilizer_state_is_pure ghz3 ghz3_valid).1⟩
+
+/-! ### 7.9 the tableau describes the state faithfully -/
+
+/-- **Pauli expectation values**: in the state of a valid Clifford tableau a real Pauli `g` has expectation value
+    `tr(g ρ) = +1` if `g` is in the stabilizer group, `−1` if `−g` is, and `0` otherwise -/
+theorem pauli_expectation_values (t : Tab) (hv : t.Valid) (hr : t.StabReal) (g : PRow) (hg : g.ip = false) :
+    (Grp t g → Matrix.trace (pauliMat t.n g * rho t.n (STab.ofTab t)) = 1) ∧
+    (Grp t (negate g) → Matrix.trace (pauliMat t.n g * rho t.n (STab.ofTab t)) = -1) ∧
+    (¬ Grp t g → ¬ Grp t (negate g) → Matrix.trace (pauliMat t.n g * rho t.n (STab.ofTab t)) = 0) :=
+  pauli_expectation t hv hr g hg
+
+/-- **The density matrix and the signed stabilizer group determine each other**: two valid tableaux on the same number of
+    qubits have the same density matrix iff they have the same stabilizer group.  (`⇐` is gauge independence; `⇒` says
+    that the group-level refinement `history_tracks_state` loses nothing: tableaux with different groups are different
+    states.)  And if some `P` lies in one group while `−P` lies in the other, the states are orthogonal. -/
+theorem stabilizer_state_determines_group (n : Nat) (a b : Tab) (ha : a.n = n) (hb : b.n = n) (va : a.Valid)
+    (ra : a.StabReal) (vb : b.Valid) (rb : b.StabReal) :
+    (rho n (STab.ofTab a) = rho n (STab.ofTab b) ↔ ∀ P, Grp a P ↔ Grp b P) ∧
+    (∀ P, Grp a P → Grp b (negate P) → rho n (STab.ofTab a) * rho n (STab.ofTab b) = 0) :=
+  ⟨rho_eq_iff_grp_eq n a b ha hb va ra vb rb, fun P => rho_mul_eq_zero_of_orth n a b ha hb va ra vb rb P⟩
+
+/-- `|00⟩` and `|11⟩`: `Z₀` is in one group, `−Z₀` in the other — orthogonal states -/
+example : rho 2 (STab.ofTab (Tab.ket0 2)) * rho 2 (STab.ofTab (Tab.ket1 2)) = 0 :=
+  (stabilizer_state_determines_group 2 (Tab.ket0 2) (Tab.ket1 2) rfl rfl (ket0_is_valid 2) (ket0_stabReal 2)
+    ((isSymplectic_iff_valid _).mp (by decide)) (stabRealB_spec _ (by decide))).2 (Zq 0)
+    (grp_gen (Tab.ket0 2) 0 (by decide)) (grp_gen (Tab.ket1 2) 0 (by decide))
+
+/-- **The overlap of two stabilizer states.**  (Compare `C05.fidelity_is_state_overlap` / `fidelity_is_squared_inner_product`,
+    proved independently through the synthesised inverse circuit: they evaluate `tr(ρ_a ρ_b)` as the value *returned by the
+    model of `inner_product`*; the theorem here evaluates it in terms of the two *groups* — `Orth`, `commonCount`,
+    `OverlapDim`, the gauge-independent specification — by averaging over the group, with no reference to the algorithm.)  `A`, `B` the stabilizer halves of two valid tableaux on `n` qubits:
+    * `Orth A B` (some `P ∈ A` with `−P ∈ B`) ⇒ `tr(ρ_a ρ_b) = 0`;
+    * otherwise `tr(ρ_a ρ_b) = commonCount A B / 2^n` — the brute-force executable specification of
+      `Model/OverlapSpec.lean` (the quantity the C05 harness compares with graphiq's `fidelity`) is the Hilbert-space overlap;
+    * otherwise, with `d` the rank of the common subgroup (`OverlapDim`, the `n − e` of `inner_product_exponent_partial`):
+      `d ≤ n` and `tr(ρ_a ρ_b) = 2^{-(n-d)}`;
+    * for kets `ρ_a = |ψ⟩⟨ψ|`, `ρ_b = |φ⟩⟨φ|` (which exist, `stabilizer_state_is_ket`): `tr(ρ_a ρ_b) = |⟨ψ|φ⟩|²`. -/
+theorem stabilizer_state_overlap (a b : Tab) (hn : a.n = b.n) (va : a.Valid) (ra : a.StabReal) (vb : b.Valid)
+    (rb : b.StabReal) :
+    (STab.Orth (STab.ofTab a) (STab.ofTab b) → Matrix.trace (rho b.n (STab.ofTab a) * rho b.n (STab.ofTab b)) = 0) ∧
+    (¬ STab.Orth (STab.ofTab a) (STab.ofTab b) →
+      Matrix.trace (rho b.n (STab.ofTab a) * rho b.n (STab.ofTab b))
+        = ((STab.ofTab a).commonCount (STab.ofTab b) : ℂ) / 2 ^ b.n) ∧
+    (∀ d, ¬ STab.Orth (STab.ofTab a) (STab.ofTab b) → STab.OverlapDim (STab.ofTab a) (STab.ofTab b) d →
+      d ≤ b.n ∧ Matrix.trace (rho b.n (STab.ofTab a) * rho b.n (STab.ofTab b)) = (1 / 2 : ℂ) ^ (b.n - d)) ∧
+    (∀ ψ φ : Bits b.n → ℂ, rho b.n (STab.ofTab a) = Matrix.vecMulVec ψ (star ψ) →
+      rho b.n (STab.ofTab b) = Matrix.vecMulVec φ (star φ) →
+      Matrix.trace (rho b.n (STab.ofTab a) * rho b.n (STab.ofTab b)) = ((Complex.normSq (star ψ ⬝ᵥ φ) : ℝ) : ℂ)) :=
+  ⟨(stabilizer_overlap a b hn va ra vb rb).1, (stabilizer_overlap a b hn va ra vb rb).2,
+   fun d hno hd => stabilizer_overlap_dim a b hn va ra vb rb d hno hd,
+   fun ψ φ h1 h2 => by rw [h1, h2]; exact trace_ket_overlap ψ φ⟩
+
+/-- the product-of-projectors form of the state is the normalised sum over the stabilizer group:
+    `∏_{i<k} (1 + P_i)/2 = 2^{-k} Σ_{S ⊆ {0..k-1}} ∏_{i∈S} P_i` for commuting real generators -/
+theorem stabilizer_state_is_group_average (t : Tab) (hv : t.Valid) :
+    rho t.n (STab.ofTab t)
+      = (1 / 2 : ℂ) ^ t.n • ∑ m ∈ Finset.range (2 ^ t.n), pauliMat t.n (STab.mprod t.n (STab.ofTab t).row m t.n) :=
+  rhoTo_mask_sum t.n _ t.n (ofTab_good t hv).goodTo
+
+/-- Bell pair vs `|00⟩`: not orthogonal, common subgroup `{1, ZZ}` of rank 1, overlap `2^{-(2-1)} = ½` -/
+example : Matrix.trace (rho 2 (STab.ofTab bell) * rho 2 (STab.ofTab (Tab.ket0 2)))
+    = ((STab.ofTab bell).commonCount (STab.ofTab (Tab.ket0 2)) : ℂ) / 2 ^ 2 ∧
+    (STab.ofTab bell).commonCount (STab.ofTab (Tab.ket0 2)) = 2 := by
+  have hno : ¬ STab.Orth (STab.ofTab bell) (STab.ofTab (Tab.ket0 2)) := by
+    rw [← STab.orthB_iff _ _ (ofTab_good bell bell_valid) (ofTab_good _ (ket0_is_valid 2)) rfl]
+    decide
+  exact ⟨(stabilizer_state_overlap bell (Tab.ket0 2) rfl bell_valid bell_real (ket0_is_valid 2) (ket0_stabReal 2)).2.1 hno,
+    by decide⟩
+
+/-! ### 7.10 the reduced state of an arbitrary stabilizer state -/
+
+/-- **The reduced state of a stabilizer state, without any product assumption** (Fattal–Cubitt–Yamamoto–Bravyi–Chuang).
+    Valid tableau on `n = m + |rem|` qubits, `rem` the (descending) list of traced-out sites, `c_0 … c_{k-1}` an independent
+    generating set of the stabilizers that act as the identity on `rem` (`IsLocalBasis`).  Then
+    `Tr_rem ρ = (2^k / 2^m) · Π` with `Π = ∏_{i<k} (1 + c_i|_kept)/2` an orthogonal projector: the reduced state is maximally
+    mixed on the subspace stabilized by the restricted subgroup, `σ² = (2^k/2^m) σ`, purity `tr σ² = 2^{-(m-k)}` — the
+    entanglement entropy of the cut is `m − k` bits (the quantity behind the height function of C03; `k = m` is the
+    product-factor case of `partial_trace_factor_is_partial_trace`).  A local basis always exists, with
+    `k = dim_GF(2) (G ∩ {trivial on rem})`: the unconditional form is `C03.reduced_state_has_flat_spectrum`, and
+    `C03.height_is_entanglement_entropy` identifies graphiq's height function with this entropy. -/
+theorem reduced_state_of_stabilizer_state (m : Nat) (t : Tab) (rem : List Nat) (hn : t.n = m + rem.length)
+    (hv : t.Valid) (hr : t.StabReal) (hpw : rem.Pairwise (· > ·)) (hlt : ∀ q, q ∈ rem → q < t.n) (k : Nat)
+    (c : Nat → PRow) (hb : IsLocalBasis t rem k c) :
+    ptraceList rem (rho (m + rem.length) (STab.ofTab t))
+      = ((2 : ℂ) ^ k / 2 ^ m) • rhoTo m (fun i => delCols rem (c i)) k ∧
+    rhoTo m (fun i => delCols rem (c i)) k * rhoTo m (fun i => delCols rem (c i)) k
+      = rhoTo m (fun i => delCols rem (c i)) k ∧
+    (rhoTo m (fun i => delCols rem (c i)) k)ᴴ = rhoTo m (fun i => delCols rem (c i)) k ∧
+    ptraceList rem (rho (m + rem.length) (STab.ofTab t)) * ptraceList rem (rho (m + rem.length) (STab.ofTab t))
+      = ((2 : ℂ) ^ k / 2 ^ m) • ptraceList rem (rho (m + rem.length) (STab.ofTab t)) ∧
+    Matrix.trace (ptraceList rem (rho (m + rem.length) (STab.ofTab t))
+        * ptraceList rem (rho (m + rem.length) (STab.ofTab t))) = (2 : ℂ) ^ k / 2 ^ m :=
+  reduced_state_eq_proj m t rem hn hv hr hpw hlt k c hb
+
+open Classical in
+/-- the partial trace of a Pauli matrix: `2^{|rem|}` times the restricted Pauli if it acts as the identity on `rem`, else 0 -/
+theorem partial_trace_of_pauli {m : Nat} (rem : List Nat) (hpw : rem.Pairwise (· > ·))
+    (hlt : ∀ q, q ∈ rem → q < m + rem.length) (P : PRow) :
+    ptraceList rem (pauliMat (m + rem.length) P)
+      = (if IdOn rem P then (2 : ℂ) ^ rem.length else 0) • pauliMat m (delCols rem P) :=
+  ptraceList_pauli rem hpw hlt P
+
+/-- Bell pair, qubit 1 traced out: no non-trivial stabilizer is supported on qubit 0 (`k = 0`), so the reduced state is
+    `(2^0/2^1)·1` — one bit of entanglement entropy -/
+example : IsLocalBasis bell [1] 0 (fun _ => PRow.one) := by
+  refine ⟨fun i hi => absurd hi (Nat.not_lt_zero _), fun i hi => absurd hi (Nat.not_lt_zero _),
+    fun _ _ i hi => absurd hi (Nat.not_lt_zero _), ?_⟩
+  intro g hg hid
+  refine ⟨fun _ => false, ?_⟩
+  show EqOn 2 g PRow.one
+  obtain ⟨s, hs, e⟩ := (STab.spn_iff_mask (STab.ofTab bell) (ofTab_good bell bell_valid) g).1
+    ((spn_of_grp bell bell_real g).mp hg)
+  have hs' : s < 4 := hs
+  have h1 := hid 1 List.mem_cons_self
+  have ex := (e.1 1 (by decide)).1
+  have ez := (e.1 1 (by decide)).2
+  rw [h1.1] at ex
+  rw [h1.2] at ez
+  interval_cases s
+  · exact e.trans (eqOn_check 2 _ _ (by decide))
+  · first | exact absurd ex (by decide) | exact absurd ez (by decide)
+  · first | exact absurd ex (by decide) | exact absurd ez (by decide)
+  · first | exact absurd ex (by decide) | exact absurd ez (by decide)
+
+/-! ### 7.11 the Born rule along every history -/
+
+/-- **Born rule for one measurement**: on a valid tableau the outcome that `z_measurement_gate` reports (the forced / drawn
+    `o` when the measurement is random, the determined one otherwise) has Born probability `tr(Π ρ) = ½` resp. `1`; the other
+    outcome has probability `½` resp. `0` -/
+theorem born_rule_measurement (t : Tab) (q : Nat) (o : Bool) (hq : q < t.n) (hv : t.Valid) (hr : t.StabReal) :
+    measProb t.n q o (rho t.n (STab.ofTab t)) = (1 / 2 : ℂ) ^ randBit t q ∧
+    measProb t.n q o (rho t.n (STab.ofTab t))
+      = Matrix.trace (proj t.n (Zq q (t.zMeasure q o).2.1) * rho t.n (STab.ofTab t)) ∧
+    (randBit t q = if (t.pivot q).isSome then 1 else 0) := by
+  refine ⟨measProb_tab t q o hq hv hr, ?_, rfl⟩
+  unfold measProb
+  rw [(meas_density t q o hq hv hr).1]
+
+/-- **Born rule for every outcome script.**  The stabilizer simulator draws the outcome of a random measurement uniformly, so
+    it produces a given outcome script with probability `2^{-#random measurements}` (`randOps`, counted along the run: explicit
+    measurements, resets, removals, and the removals inside partial traces).  `dProbOps` is the Born probability of that
+    script: the product over the same measurements of `tr(Π ρ)` for the outcome that occurs, on the density matrix reached so
+    far (`dOps`).  They are equal along every accepted history from every valid tableau. -/
+theorem born_rule_history (ops : List Tab.Op) (hops : ∀ op ∈ ops, WF op) :
+    ∀ (t t' : Tab), t.Valid → t.StabReal → t.runOps ops = .ok t' →
+      dProbOps ops (dstate t) = (1 / 2 : ℂ) ^ randOps t ops := by
+  induction ops with
+  | nil => intro t t' _ _ _; simp [dProbOps, randOps]
+  | cons op rest ih =>
+    intro t t' hv hr h
+    simp only [runOps] at h
+    split at h
+    · next t1 out h1 =>
+      have hop := hops op List.mem_cons_self
+      have v1 := op_preserves_valid t t1 op out hop hv h1
+      have r1 := (op_tracks_state t t1 op out hop hv hr h1).1
+      have d1 := op_tracks_density_matrix t t1 op out hop hv hr h1
+      have b1 := op_born t t1 op out hv hr h1
+      have ihh := ih (fun o ho => hops o (List.mem_cons_of_mem _ ho)) t1 t' v1 r1 h
+      show dProbOp op (dstate t) * dProbOps rest (dOp op (dstate t)) = (1 / 2 : ℂ) ^ (randOp t op +
+        match t.applyOp op with
+        | .ok (t', _) => randOps t' rest
+        | .error _ => 0)
+      rw [h1, b1, ← d1, ihh, pow_add]
+    · simp at h
+
+/-- GHZ₃: measure qubit 0 (random), then qubit 1 (now deterministic): the script has Born probability `½ · 1` -/
+example : dProbOps [.meas 0 true, .meas 1 true] (dstate ghz3) = (1 / 2 : ℂ) ^ randOps ghz3 [.meas 0 true, .meas 1 true] ∧
+    randOps ghz3 [.meas 0 true, .meas 1 true] = 1 := by
+  refine ⟨?_, by decide⟩
+  have hwf : ∀ op ∈ ([.meas 0 true, .meas 1 true] : List Tab.Op), WF op := by
+    intro op hop
+    simp only [List.mem_cons, List.mem_nil_iff, or_false] at hop
+    rcases hop with rfl | rfl <;> trivial
+  cases hrun : ghz3.runOps [.meas 0 true, .meas 1 true] with
+  | error e =>
+    exfalso
+    have : (match ghz3.runOps [.meas 0 true, .meas 1 true] with | .ok _ => true | .error _ => false) = true := by
+      decide +kernel
+    rw [hrun] at this; cases this
+  | ok t' => exact born_rule_history _ hwf ghz3 t' ghz3_valid ghz3_stabReal hrun
+
+/-! ### 7.12 X / Y measurements: `measure_x`, `measure_y`, `x_measurement_gate`, `Stabilizer.apply_x_measurement`
+
+  Defects D52 / D53 (found while extending the Hilbert-space reading, repaired in `/repo`): before the repair `measure_x` /
+  `measure_y` applied their change of basis to the caller's tableau in place and never undid it, and
+  `Stabilizer.apply_x_measurement` called a function `x_measurement_gate` that did not exist.  The first two theorems below are
+  about a transcription of the OLD code (`measXCoded`, `Proofs/HilbertDimMeasXY.lean`) and document the defect; reverting the
+  repair makes the harness report `state:measure_x:wrong-state`.  The model of the repaired code is `Tab.measX` / `Tab.measY` /
+  `Tab.applyOpX` (`Model/Tableau.lean`), compared with the implementation on every run (driver tokens `measx`, `measy`,
+  `xmeas`), and the remaining theorems are about it. -/
+
+/-- **what `measure_x` did before the repair D52**: the reported outcome `s` is the X-measurement outcome, but the tableau left behind is
+    `H · (Π_X ρ Π_X / tr(Π_X ρ)) · H†` — the post-measurement state conjugated by a Hadamard that is never undone (the qubit
+    is left in `|0⟩/|1⟩` instead of `|+⟩/|−⟩`) -/
+theorem measure_x_as_coded_leaves_a_hadamard (t : Tab) (q : Nat) (o : Bool) (hq : q < t.n) (hv : t.Valid)
+    (hr : t.StabReal) :
+    rho t.n (STab.ofTab (measXCoded t q o).1)
+      = gateMat t.n (.H q) * postMeasX t.n q (measXCoded t q o).2 (rho t.n (STab.ofTab t)) * (gateMat t.n (.H q))ᴴ ∧
+    (measXCoded t q o).2
+      = measOutcome t.n q o (gateMat t.n (.H q) * rho t.n (STab.ofTab t) * (gateMat t.n (.H q))ᴴ) ∧
+    (measXCoded t q o).1 = ((t.hGate q).zMeasure q o).1 :=
+  ⟨(measXCoded_density t q o hq hv hr).1, (measXCoded_density t q o hq hv hr).2, rfl⟩
+
+/-- **refutation witness for the old code** (kernel-checked): on `|++⟩` the X-measurement of qubit 0 is deterministic
+    (outcome 0), so the state must not change; after the old `measure_x` the tableau has the generator `Z₀` instead of `X₀` and its density
+    matrix differs from the input's -/
+theorem measure_x_refuted (o : Bool) :
+    ((Tab.plus 2).hGate 0).pivot 0 = none ∧ (measXCoded (Tab.plus 2) 0 o).2 = false ∧
+    Grp (measXCoded (Tab.plus 2) 0 o).1 (Zq 0) ∧ Grp (Tab.plus 2) (Xq 0) ∧
+    rho 2 (STab.ofTab (measXCoded (Tab.plus 2) 0 o).1) ≠ rho 2 (STab.ofTab (Tab.plus 2)) :=
+  measX_plus_witness o
+
+/-- side condition for the extended API -/
+def WFX : Tab.OpX → Prop
+  | .base op => WF op
+  | _ => True
+
+theorem wfx_desugar (xs : List Tab.OpX) (h : ∀ x ∈ xs, WFX x) : ∀ op ∈ xs.flatMap Tab.OpX.desugar, WF op := by
+  intro op hop
+  rw [List.mem_flatMap] at hop
+  obtain ⟨x, hx, hox⟩ := hop
+  have hw := h x hx
+  cases x with
+  | base b =>
+    simp only [Tab.OpX.desugar, List.mem_cons, List.mem_nil_iff, or_false] at hox
+    rw [hox]; exact hw
+  | measX q o =>
+    simp only [Tab.OpX.desugar, List.mem_cons, List.mem_nil_iff, or_false] at hox
+    rcases hox with rfl | rfl | rfl <;> trivial
+  | xMeasGate q o =>
+    simp only [Tab.OpX.desugar, List.mem_cons, List.mem_nil_iff, or_false] at hox
+    rcases hox with rfl | rfl | rfl <;> trivial
+  | measY q o =>
+    simp only [Tab.OpX.desugar, List.mem_cons, List.mem_nil_iff, or_false] at hox
+    rcases hox with rfl | rfl | rfl | rfl | rfl <;> trivial
+
+/-- **`measure_x` / `x_measurement_gate` / `Stabilizer.apply_x_measurement` (repaired), group level and Hilbert level.**
+    The call is `hadamard_gate; z_measurement_gate; hadamard_gate`; the result is valid with real stabilizer rows on the same
+    qubits; its stabilizer group is the abstract semantics of these three operations applied to the old group; its density
+    matrix is the normalised projection `Π^X_s ρ Π^X_s / tr(Π^X_s ρ)` on the eigenvalue `(-1)^s` of `X_q`, `s` the reported
+    outcome — the forced / drawn `o` unless `tr(Π^X_o ρ) = 0`. -/
+theorem measure_x_spec (t : Tab) (q : Nat) (o : Bool) (hq : q < t.n) (hv : t.Valid) (hr : t.StabReal) :
+    (t.measX q o).1.Valid ∧ (t.measX q o).1.StabReal ∧ (t.measX q o).1.n = t.n ∧
+    gstate (t.measX q o).1 = specOps [.h q, .meas q o, .h q] (gstate t) ∧
+    rho t.n (STab.ofTab (t.measX q o).1)
+      = (Matrix.trace (proj t.n (Xq q (t.measX q o).2.1) * rho t.n (STab.ofTab t)))⁻¹ •
+          (proj t.n (Xq q (t.measX q o).2.1) * rho t.n (STab.ofTab t) * proj t.n (Xq q (t.measX q o).2.1)) ∧
+    ((t.measX q o).2.1 = if Matrix.trace (proj t.n (Xq q o) * rho t.n (STab.ofTab t)) = 0 then !o else o) ∧
+    t.applyOpX (.measX q o) = t.applyOpX (.xMeasGate q o) := by
+  obtain ⟨h1, h2, h3, h4, h5⟩ := rho_measX t q o hq hv hr
+  have hrun : t.runOps [.h q, .meas q o, .h q] = .ok (t.measX q o).1 := by
+    have := applyOpX_runOps t (.measX q o)
+    simp only [Tab.applyOpX, hq, if_true, Tab.OpX.desugar] at this
+    exact this.symm
+  have hst := history_tracks_state [.h q, .meas q o, .h q] (by
+    intro op hop
+    simp only [List.mem_cons, List.mem_nil_iff, or_false] at hop
+    rcases hop with rfl | rfl | rfl <;> trivial) t _ hv hr hrun
+  exact ⟨h3, h4, h5, hst.2.2, h1, h2, rfl⟩
+
+/-- **`measure_y` (repaired)**: `phase_dagger_gate; hadamard_gate; z_measurement_gate; hadamard_gate; phase_gate` is the
+    projective measurement of `Y_q` -/
+theorem measure_y_spec (t : Tab) (q : Nat) (o : Bool) (hq : q < t.n) (hv : t.Valid) (hr : t.StabReal) :
+    (t.measY q o).1.Valid ∧ (t.measY q o).1.StabReal ∧ (t.measY q o).1.n = t.n ∧
+    gstate (t.measY q o).1 = specOps [.sdg q, .h q, .meas q o, .h q, .s q] (gstate t) ∧
+    rho t.n (STab.ofTab (t.measY q o).1)
+      = (Matrix.trace (proj t.n (Yrow q (t.measY q o).2.1) * rho t.n (STab.ofTab t)))⁻¹ •
+          (proj t.n (Yrow q (t.measY q o).2.1) * rho t.n (STab.ofTab t) * proj t.n (Yrow q (t.measY q o).2.1)) ∧
+    ((t.measY q o).2.1 = if Matrix.trace (proj t.n (Yrow q o) * rho t.n (STab.ofTab t)) = 0 then !o else o) := by
+  obtain ⟨h1, h2, h3, h4, h5⟩ := rho_measY t q o hq hv hr
+  have hrun : t.runOps [.sdg q, .h q, .meas q o, .h q, .s q] = .ok (t.measY q o).1 := by
+    have := applyOpX_runOps t (.measY q o)
+    simp only [Tab.applyOpX, hq, if_true, Tab.OpX.desugar] at this
+    exact this.symm
+  have hst := history_tracks_state [.sdg q, .h q, .meas q o, .h q, .s q] (by
+    intro op hop
+    simp only [List.mem_cons, List.mem_nil_iff, or_false] at hop
+    rcases hop with rfl | rfl | rfl | rfl | rfl <;> trivial) t _ hv hr hrun
+  exact ⟨h3, h4, h5, hst.2.2, h1, h2⟩
+
+/-- **History theorems for the API extended by the X / Y measurements** (`Tab.OpX`, `Tab.runOpsX`): an extended history is the
+    history of its base operations (`desugar`), so validity, reality of the stabilizer rows, the group-level refinement, the
+    density-matrix refinement and the Born rule all hold along every accepted extended history. -/
+theorem history_extended_api (xs : List Tab.OpX) (hxs : ∀ x ∈ xs, WFX x) (t t' : Tab) (hv : t.Valid) (hr : t.StabReal)
+    (h : t.runOpsX xs = .ok t') :
+    t.runOps (xs.flatMap Tab.OpX.desugar) = .ok t' ∧ t'.Valid ∧ t'.StabReal ∧
+    gstate t' = specOps (xs.flatMap Tab.OpX.desugar) (gstate t) ∧
+    dstate t' = dOps (xs.flatMap Tab.OpX.desugar) (dstate t) ∧
+    dProbOps (xs.flatMap Tab.OpX.desugar) (dstate t) = (1 / 2 : ℂ) ^ randOps t (xs.flatMap Tab.OpX.desugar) := by
+  rw [runOpsX_eq_runOps] at h
+  have hw := wfx_desugar xs hxs
+  obtain ⟨v, r, g⟩ := history_tracks_state _ hw t t' hv hr h
+  exact ⟨h, v, r, g, history_tracks_density _ hw t t' hv hr h, born_rule_history _ hw t t' hv hr h⟩
+
+/-- GHZ₃: `measure_x` of qubit 0 is random; `measure_y` of qubit 1 afterwards — the extended history is accepted -/
+example : (match ghz3.runOpsX [.measX 0 true, .measY 1 false, .xMeasGate 2 true] with
+    | .ok t' => t'.n == 3 && t'.isSymplectic | .error _ => false) = true := by decide +kernel
+
+/-! ### 7.13 `trace_out_qubits` (state.py wrappers, defect D54 repaired) and `tensor` of a whole list -/
+
+/-- **`Stabilizer.trace_out_qubits` / `MixedStabilizer.trace_out_qubits` (repaired D54: `keep` = the qubits NOT listed).**
+    The call is `partial_trace` onto the complement: the qubits removed are exactly the listed ones (highest first); the
+    result is valid; its group / density matrix are the partial-trace semantics of §4b.8 / §7.5 for `keep` = complement; and
+    if every listed qubit is unentangled the result is the reduced state of the others, `Tr_{listed} ρ`, whatever the
+    outcome script.  (Before the repair the wrappers passed the listed qubits as `keep`: harness key
+    `state:trace_out_qubits:wrong-state`.) -/
+theorem trace_out_qubits_spec (t t' : Tab) (pos : List Nat) (os : List Bool) (hv : t.Valid) (hr : t.StabReal)
+    (h : t.traceOutQubits pos os = .ok t') :
+    t.traceOutQubits pos os = t.partialTrace ((List.range t.n).filter fun q => !pos.contains q) os ∧
+    t'.Valid ∧ t'.StabReal ∧
+    (∀ q, q ∈ removalList t.n ((List.range t.n).filter fun q => !pos.contains q) ↔ q < t.n ∧ q ∈ pos) ∧
+    gstate t' = specPtrace ((List.range t.n).filter fun q => !pos.contains q) os (gstate t) ∧
+    dstate t' = dPtrace ((List.range t.n).filter fun q => !pos.contains q) os (dstate t) ∧
+    ((∀ q, q < t.n → q ∈ pos → Unentangled t q) →
+      ∀ m, t.n = m + (removalList t.n ((List.range t.n).filter fun q => !pos.contains q)).length →
+        rho m (STab.ofTab t')
+          = ptraceList (removalList t.n ((List.range t.n).filter fun q => !pos.contains q))
+              (rho (m + (removalList t.n ((List.range t.n).filter fun q => !pos.contains q)).length) (STab.ofTab t))) := by
+  have hpt : t.partialTrace ((List.range t.n).filter fun q => !pos.contains q) os = .ok t' := h
+  have happ : t.applyOp (.ptrace ((List.range t.n).filter fun q => !pos.contains q) os) = .ok (t', none) := by
+    simp only [Tab.applyOp, hpt]
+  have hmem : ∀ q, q ∈ removalList t.n ((List.range t.n).filter fun q => !pos.contains q) ↔ q < t.n ∧ q ∈ pos := by
+    intro q
+    rw [mem_removalList]
+    simp only [List.mem_filter, List.mem_range, Bool.not_eq_true', List.contains_eq_mem, decide_eq_false_iff_not,
+      not_and, not_not]
+    constructor
+    · rintro ⟨h1, h2⟩; exact ⟨h1, h2 h1⟩
+    · rintro ⟨h1, h2⟩; exact ⟨h1, fun _ => h2⟩
+  have hwf : WF (.ptrace ((List.range t.n).filter fun q => !pos.contains q) os) := trivial
+  obtain ⟨r', g⟩ := op_tracks_state t t' _ none hwf hv hr happ
+  refine ⟨rfl, op_preserves_valid t t' _ none hwf hv happ, r', hmem, g,
+    op_tracks_density_matrix t t' _ none hwf hv hr happ, ?_⟩
+  intro hu m hm
+  exact partial_trace_product_is_partial_trace m t t' _ os hm hv hr
+    (fun q hq hnk => hu q hq (by
+      by_contra hnp
+      exact hnk (by
+        simp only [List.mem_filter, List.mem_range, Bool.not_eq_true', List.contains_eq_mem, decide_eq_false_iff_not]
+        exact ⟨hq, hnp⟩))) hpt
+
+/-- `|100⟩`, trace out qubit 0 (the repro of D54): accepted, one qubit is removed -/
+example : (match (Tab.ket1 3).traceOutQubits [0] [false] with | .ok t' => t'.n == 2 && t'.isSymplectic | .error _ => false)
+    = true := by decide +kernel
+
+/-- **`tensor(list_of_tables)` for a whole list**: the list is folded into its first element by the two-factor step
+    (`tensor_spec`, `tensor_valid`), so with every factor valid the result is valid, has the sum of the qubit numbers, and its
+    density matrix is the iterated Kronecker product in list order -/
+theorem tensor_list_spec (t : Tab) (ts : List Tab) :
+    Tab.tensorList t [] = t ∧
+    (∀ b, Tab.tensorList t (ts ++ [b]) = Tab.tensor2 (Tab.tensorList t ts) b) ∧
+    (t.Valid → (∀ b ∈ ts, b.Valid) → (Tab.tensorList t ts).Valid) ∧
+    (Tab.tensorList t ts).n = t.n + (ts.map Tab.n).sum ∧
+    dstate (Tab.tensorList t ts) = (ts.map dstate).foldl dTensor (dstate t) := by
+  refine ⟨rfl, fun b => by simp [Tab.tensorList, List.foldl_append], ?_, ?_, dstate_tensorL t ts⟩
+  · intro hv hall
+    induction ts generalizing t with
+    | nil => exact hv
+    | cons a rest ih =>
+      exact ih (Tab.tensor2 t a) (tensor_valid t a hv (hall a List.mem_cons_self))
+        (fun b hb => hall b (List.mem_cons_of_mem _ hb))
+  · induction ts generalizing t with
+    | nil => simp [Tab.tensorList]
+    | cons a rest ih =>
+      show (Tab.tensorList (Tab.tensor2 t a) rest).n = _
+      rw [ih]
+      show t.n + a.n + _ = _
+      simp only [List.map_cons, List.sum_cons]
+      omega
+
+/-- **`control_y_gate`** (transformation.py; `phase_gate; z_gate; cnot_gate; phase_gate` on the target): it is the history of
+    these four base operations, keeps the tableau valid, and on density matrices it is conjugation by the controlled-Y unitary
+    `get_two_qubit_controlled_gate(n, c, t, sigmay())`, which is the product of the four gate unitaries -/
+theorem control_y_gate_spec (t : Tab) (c tg : Nat) (hc : c < t.n) (ht : tg < t.n) (hct : c ≠ tg) (hv : t.Valid)
+    (hr : t.StabReal) :
+    t.runOps [.s tg, .z tg, .cnot c tg, .s tg] = .ok (t.cyGate c tg) ∧
+    (t.cyGate c tg).Valid ∧ (t.cyGate c tg).StabReal ∧
+    gateMat t.n (.P tg) * gateMat t.n (.CNOT c tg) * gateMat t.n (.Z tg) * gateMat t.n (.P tg) = ctrlQ t.n c tg sigmaY ∧
+    rho t.n (STab.ofTab (t.cyGate c tg))
+      = ctrlQ t.n c tg sigmaY * rho t.n (STab.ofTab t) * (ctrlQ t.n c tg sigmaY)ᴴ := by
+  have hrun : t.runOps [.s tg, .z tg, .cnot c tg, .s tg] = .ok (t.cyGate c tg) := by
+    have h1 : tg < (t.sGate tg).n := ht
+    have h2 : c < ((t.sGate tg).zGate tg).n ∧ tg < ((t.sGate tg).zGate tg).n := ⟨hc, ht⟩
+    have h3 : tg < (((t.sGate tg).zGate tg).cnotGate c tg).n := ht
+    simp only [Tab.runOps, Tab.applyOp, ht, h1, h2, h3, if_true, and_self, Tab.cyGate]
+  have hst := history_tracks_state [.s tg, .z tg, .cnot c tg, .s tg] (by
+    intro op hop
+    simp only [List.mem_cons, List.mem_nil_iff, or_false] at hop
+    rcases hop with rfl | rfl | rfl | rfl
+    · trivial
+    · trivial
+    · exact hct
+    · trivial) t _ hv hr hrun
+  exact ⟨hrun, hst.1, hst.2.1, control_y_unitary t.n c tg hc ht hct, rho_cyGate t c tg hc ht hct⟩
 
 end Graphiq.C07
